@@ -21,7 +21,7 @@ PROPS = {
     "C23": ("C23", {"rel:cost_lt"}),
     "C25": ("C25", {"internal"}),
     "C30": ("C30", {"rel:eq_outcome_c30"}),
-    "C31": ("C31", {"guard:nil", "guard:counters", "guard:cost", "guard:depth", "outcome:depth"}),
+    "C31": ("C31", {"guard:nil", "guard:counters", "guard:cost", "guard:depth", "guard:verdict", "outcome:depth"}),
     "C13": ("C13", {"cap", "cap:F5", "outcome"}),
 }
 
